@@ -528,7 +528,7 @@ class TFLiteSupportedOperators:
         "Optional Bias tensor values must fit within 40-bits"
         bias = op.bias
         if bias and bias.dtype == DataType.int64 and bias.values is not None:
-            valid = all(len(bin(value)[2:]) <= 40 for value in bias.values)
+            valid = all(-(1 << 39) <= int(value) < (1 << 39) for value in bias.values)  # signed 40-bit range
             return valid, f"Tensor '{bias.name}' has values larger than 40-bits"
         return True, "Op has no bias tensor, or it fits in 40-bit"
 
